@@ -27,7 +27,8 @@
 (* over Ids and every generator script of <= MaxCmds commands (addresses   *)
 (* valid for the original buffer, strictly decreasing, regions disjoint -- *)
 (* what `diff -e` emits; Adjacent = TRUE also admits hunks that touch) and *)
-(* checks ImplEqualsEd, TargetReached, CorruptRaises in every state.       *)
+(* checks ImplEqualsEd, TargetReached, StructureConsistent, CorruptRaises   *)
+(* in every state.                                                         *)
 (*                                                                         *)
 (* Spec-level negative controls (each tried, each makes TLC report the     *)
 (* named invariant; c18.py re-runs them in every check):                   *)
@@ -92,6 +93,20 @@ EdTargetFrom(buf, s, i) ==
    IF i > Len(buf) THEN <<>>
    ELSE EdPieceLine(buf, s, i) \o EdPieceAfter(s, i) \o EdTargetFrom(buf, s, i + 1)
 Target(buf, s) == EdPieceAfter(s, 0) \o EdTargetFrom(buf, s, 1)
+
+\* Structure of the result: the same script run on a buffer of TAGS instead of line ids -- tag p
+\* for the p-th original line, 100 * j + i for the i-th text line of the j-th command.  EdApply
+\* never looks at what a line is, so the structure is independent of the content AND of the length
+\* of the things the tags stand for: replacing every tag by a run of r >= 1 concrete lines (and
+\* every address by the corresponding prefix sum) commutes with EdRun.  The harness uses this for
+\* size-stressed concretizations (files of up to 10^5 lines, hunks of 10^3 lines) whose expected
+\* result is the expansion of the structure TLC computed here; StructureConsistent ties it to ids.
+RECURSIVE TagSeq(_, _, _)
+TagSeq(base, n, i) == IF i > n THEN <<>> ELSE <<base + i>> \o TagSeq(base, n, i + 1)
+RECURSIVE TagScriptFrom(_, _)
+TagScriptFrom(s, j) == IF j > Len(s) THEN <<>>
+                       ELSE <<[s[j] EXCEPT !.t = TagSeq(100 * j, Len(s[j].t), 1)]>> \o TagScriptFrom(s, j + 1)
+Structure(buf, s) == EdRun(TagSeq(0, Len(buf), 1), TagScriptFrom(s, 1))
 
 ----------------------------------------------------------------------------
 \* text layer: a script as line tokens
@@ -237,6 +252,14 @@ ImplEqualsEd == LET p == Parse(ScriptLines(script))
 \* applying a bottom-up script command by command yields the target of the diff
 TargetReached == EdRun(old, script) = Target(old, script)
 
+\* the tag structure denotes the result: tag p is old[p], tag 100 * j + i is script[j].t[i]
+StructureConsistent ==
+   LET st == Structure(old, script)
+       nw == EdRun(old, script)
+   IN /\ Len(st) = Len(nw)
+      /\ \A q \in 1..Len(st) :
+            nw[q] = IF st[q] < 100 THEN old[st[q]] ELSE script[st[q] \div 100].t[st[q] % 100]
+
 \* every single corruption is rejected by the parser automaton.  The automaton reads neither the
 \* buffer nor the ids of text lines (PStep never looks at tk.id), and a script for a shorter buffer
 \* is a script for the longest one: one representative per script shape decides all of them.
@@ -259,7 +282,7 @@ EncToks(ts, i) == IF i > Len(ts) THEN <<>> ELSE <<EncTok(ts[i])>> \o EncToks(ts,
 
 \* one line per state: the buffer, the script as line tokens, and the expected result
 EmitCase == Emit => PrintT(<<"CASE", ToJson([old |-> old, lines |-> EncToks(ScriptLines(script), 1),
-                                             new |-> EdRun(old, script)])>>)
+                                             new |-> EdRun(old, script), tnew |-> Structure(old, script)])>>)
 EmitCorrupt == (Emit /\ Canonical) =>
    LET lines == ScriptLines(script) IN
    \A kp \in Corruptions(lines) :
